@@ -612,3 +612,194 @@ func ruleCompoundUniform(c *Ctx, r *Report) {
 	}
 	r.analysed(rule, "slice- and string-backed Compound implementers")
 }
+
+// ---------------------------------------------------------------------------
+// R-UNIFY-ABSTRACT (C02; added after seed C02d): unification is defined on the abstract term, "whatever the
+// term representation". The unifier looks at its operands only through the term abstraction: type
+// assertions to Variable and Compound, the Compound methods Functor/Arity/Arg, and == on atomic terms. Any
+// other view of an operand - an assertion to a concrete representation or to a foreign interface
+// (fmt.Stringer), a method such as String() - decides by representation: a character list and a code list
+// with the same text have equal String() and are not unifiable.
+
+func ruleUnifyAbstract(c *Ctx, r *Report) {
+	const rule = "R-UNIFY-ABSTRACT"
+	unify := c.method("Env", "unify")
+	if unify == nil {
+		r.undecided(rule, "anchor:unify", "-", "locate Env.unify", "not found")
+		return
+	}
+	desc := "the unifier inspects its operands only through Variable, Compound, Functor/Arity/Arg and =="
+	allowedAssert := map[string]bool{"engine.Variable": true, "engine.Compound": true}
+	allowedMethod := map[string]bool{"Functor": true, "Arity": true, "Arg": true}
+	n := 0
+	bad := 0
+	eachInstr(unify, func(in ssa.Instruction) {
+		switch x := in.(type) {
+		case *ssa.TypeAssert:
+			if !isEngNamed(x.X.Type(), "Term") && !isEngNamed(x.X.Type(), "Compound") {
+				return
+			}
+			n++
+			if !allowedAssert[typeName(x.AssertedType)] {
+				bad++
+				r.bad(rule, fmt.Sprintf("%s/assert(%s)", fname(unify), typeName(x.AssertedType)), c.at(in), desc, "an operand is asserted to "+typeName(x.AssertedType)+": the outcome then depends on how the term happens to be represented")
+			}
+		case *ssa.Call:
+			if !x.Call.IsInvoke() {
+				return
+			}
+			if !isEngNamed(x.Call.Value.Type(), "Term") && !isEngNamed(x.Call.Value.Type(), "Compound") && !types.IsInterface(x.Call.Value.Type()) {
+				return
+			}
+			// only invocations on values derived from the operands
+			n++
+			if !allowedMethod[x.Call.Method.Name()] {
+				bad++
+				r.bad(rule, fmt.Sprintf("%s/invoke(%s)", fname(unify), x.Call.Method.Name()), c.at(in), desc, "the method "+x.Call.Method.Name()+" is invoked on an operand: unification decided by a representation-specific view")
+			}
+		}
+	})
+	if bad == 0 {
+		r.ok(rule, fname(unify)+"/views", c.Pos(unify.Pos()), desc, fmt.Sprintf("%d assertions and interface invocations, all within the term abstraction", n), true)
+	}
+	r.analysed(rule, fname(unify))
+}
+
+// ---------------------------------------------------------------------------
+// R-PARTIAL-SPINE (C05, C02; added after seed C05d): a *partial shares a list's cells and stands for
+// "these cells with T in place of the final []". Its accessors walk the shared spine WITHOUT an environment
+// ((*partial).Arg asserts every cdr to be a Compound), so the spine has to be a proper list as it stands,
+// with no variable in it - bound or not. Wherever a partial is built around an existing compound (not by the
+// constructor that builds the cells itself), that compound has been walked to its end by a ListIterator
+// whose Env is nil. Walking it under the current environment accepts [a|T] with T bound: the first access to
+// the shared result panics (interface conversion: Variable is not Compound) - in a later goal, or
+// unrecovered in Solutions.Scan.
+
+func rulePartialSpine(c *Ctx, r *Report) {
+	const rule = "R-PARTIAL-SPINE"
+	desc := "a partial list is built around an existing compound only after its spine was checked without following bindings"
+	n := 0
+	for _, fn := range c.LibFuncs() {
+		if funcPkg(fn) != c.Engine {
+			continue
+		}
+		top := topFunc(fn)
+		if top.Signature.Recv() != nil && isEngNamed(deref(top.Signature.Recv().Type()), "partial") {
+			continue // the type's own methods re-wrap sub-spines of an already checked spine
+		}
+		seen := 0
+		eachInstr(fn, func(in ssa.Instruction) {
+			st, ok := in.(*ssa.Store)
+			if !ok {
+				return
+			}
+			fa, ok := st.Addr.(*ssa.FieldAddr)
+			if !ok || fieldName(fa) != "Compound" || !isEngNamed(deref(fa.X.Type()), "partial") {
+				return
+			}
+			// value built in this function from fresh cells (constructor) is fine
+			fresh := true
+			fromCheckedSpine := func(v ssa.Value) bool {
+				// the Compound field of an existing partial (already a checked spine)
+				for _, l := range c.originSet(v) {
+					ld, ok := l.(*ssa.UnOp)
+					if !ok || ld.Op != token.MUL {
+						return false
+					}
+					fa2, ok := ld.X.(*ssa.FieldAddr)
+					if !ok || fieldName(fa2) != "Compound" || !isEngNamed(deref(fa2.X.Type()), "partial") {
+						return false
+					}
+				}
+				return true
+			}
+			for _, l := range c.originSet(st.Val) {
+				switch x := l.(type) {
+				case *ssa.Alloc:
+				case *ssa.ChangeType:
+					if !isEngNamed(x.Type(), "list") { // a Go slice as a list: a proper spine by construction
+						fresh = false
+					}
+				case *ssa.Convert:
+					if !isEngNamed(x.Type(), "list") {
+						fresh = false
+					}
+				case *ssa.Slice, *ssa.MakeSlice:
+				case *ssa.Parameter:
+					if !isEngNamed(x.Type(), "list") {
+						if _, isSlice := x.Type().Underlying().(*types.Slice); !isSlice {
+							fresh = false
+						}
+					}
+				case *ssa.Call:
+					f := x.Call.StaticCallee()
+					switch {
+					case f != nil && (f.Name() == "List" || f.Name() == "Cons" || f.Name() == "PartialList"):
+					case f != nil && len(x.Call.Args) > 0 && (f.Name() == "renamedCopy" || f.Name() == "simplify") && fromCheckedSpine(x.Call.Args[0]):
+						// a copy of the spine of an existing partial: the copy of a proper list is a proper list
+					default:
+						fresh = false
+					}
+				case *ssa.Extract:
+					if cl, ok := x.Tuple.(*ssa.Call); ok {
+						f := cl.Call.StaticCallee()
+						if f != nil && len(cl.Call.Args) > 0 && (f.Name() == "renamedCopy" || f.Name() == "simplify") && fromCheckedSpine(cl.Call.Args[0]) {
+							break
+						}
+					}
+					fresh = false
+				default:
+					fresh = false
+				}
+			}
+			if fresh {
+				return
+			}
+			n++
+			seen++
+			key := fmt.Sprintf("%s/partial#%d", fname(fn), seen)
+			// a ListIterator in this function over the same value with Env == nil
+			checked := false
+			type itInfo struct {
+				list   []ssa.Value
+				envNil bool
+			}
+			its := map[ssa.Value]*itInfo{}
+			eachInstr(fn, func(x ssa.Instruction) {
+				s2, ok := x.(*ssa.Store)
+				if !ok {
+					return
+				}
+				f2, ok := s2.Addr.(*ssa.FieldAddr)
+				if !ok || !isEngNamed(deref(f2.X.Type()), "ListIterator") {
+					return
+				}
+				if its[f2.X] == nil {
+					its[f2.X] = &itInfo{envNil: true}
+				}
+				switch fieldName(f2) {
+				case "List":
+					its[f2.X].list = c.originSet(s2.Val)
+				case "Env":
+					if k, ok := s2.Val.(*ssa.Const); !ok || k.Value != nil {
+						its[f2.X].envNil = false
+					}
+				}
+			})
+			for _, it := range its {
+				if it.envNil && sameLeafSetByName(it.list, c.originSet(st.Val)) {
+					checked = true
+				}
+			}
+			if checked {
+				r.ok(rule, key, c.at(in), desc, "walked by a ListIterator with Env == nil", true)
+			} else {
+				r.bad(rule, fmt.Sprintf("%s/partial", fname(fn)), c.at(in), desc, "the compound is wrapped without a walk of its spine under Env == nil: a bound variable in the spine ([a|T], T = [b]) is accepted, and the first access to the shared result panics")
+			}
+		})
+	}
+	if n == 0 {
+		r.info(rule, "scan/partial", "-", desc, "no partial is built around an existing compound")
+	}
+	r.analysed(rule, fmt.Sprintf("%d constructions of a partial around an existing compound", n))
+}
